@@ -7,6 +7,9 @@ Extract/C06x.vos Extract/C06x.vok Extract/C06x.required_vos: Extract/C06x.v Mode
 Extract/C07x.vo Extract/C07x.glob Extract/C07x.v.beautified Extract/C07x.required_vo: Extract/C07x.v Model/Io.vo Model/Cycle.vo Spec/C07Judge.vo
 Extract/C07x.vio: Extract/C07x.v Model/Io.vio Model/Cycle.vio Spec/C07Judge.vio
 Extract/C07x.vos Extract/C07x.vok Extract/C07x.required_vos: Extract/C07x.v Model/Io.vos Model/Cycle.vos Spec/C07Judge.vos
+Extract/C14x.vo Extract/C14x.glob Extract/C14x.v.beautified Extract/C14x.required_vo: Extract/C14x.v Model/LspText.vo Spec/C14.vo
+Extract/C14x.vio: Extract/C14x.v Model/LspText.vio Spec/C14.vio
+Extract/C14x.vos Extract/C14x.vok Extract/C14x.required_vos: Extract/C14x.v Model/LspText.vos Spec/C14.vos
 Model/Cycle.vo Model/Cycle.glob Model/Cycle.v.beautified Model/Cycle.required_vo: Model/Cycle.v Model/Io.vo
 Model/Cycle.vio: Model/Cycle.v Model/Io.vio
 Model/Cycle.vos Model/Cycle.vok Model/Cycle.required_vos: Model/Cycle.v Model/Io.vos
@@ -16,6 +19,9 @@ Model/Fb.vos Model/Fb.vok Model/Fb.required_vos: Model/Fb.v
 Model/Io.vo Model/Io.glob Model/Io.v.beautified Model/Io.required_vo: Model/Io.v 
 Model/Io.vio: Model/Io.v 
 Model/Io.vos Model/Io.vok Model/Io.required_vos: Model/Io.v 
+Model/LspText.vo Model/LspText.glob Model/LspText.v.beautified Model/LspText.required_vo: Model/LspText.v 
+Model/LspText.vio: Model/LspText.v 
+Model/LspText.vos Model/LspText.vok Model/LspText.required_vos: Model/LspText.v 
 Model/Sched.vo Model/Sched.glob Model/Sched.v.beautified Model/Sched.required_vo: Model/Sched.v 
 Model/Sched.vio: Model/Sched.v 
 Model/Sched.vos Model/Sched.vok Model/Sched.required_vos: Model/Sched.v 
@@ -25,6 +31,9 @@ Proofs/C04Proofs.vos Proofs/C04Proofs.vok Proofs/C04Proofs.required_vos: Proofs/
 Proofs/C06Proofs.vo Proofs/C06Proofs.glob Proofs/C06Proofs.v.beautified Proofs/C06Proofs.required_vo: Proofs/C06Proofs.v Model/Sched.vo Spec/C06.vo
 Proofs/C06Proofs.vio: Proofs/C06Proofs.v Model/Sched.vio Spec/C06.vio
 Proofs/C06Proofs.vos Proofs/C06Proofs.vok Proofs/C06Proofs.required_vos: Proofs/C06Proofs.v Model/Sched.vos Spec/C06.vos
+Proofs/C14Proofs.vo Proofs/C14Proofs.glob Proofs/C14Proofs.v.beautified Proofs/C14Proofs.required_vo: Proofs/C14Proofs.v Model/LspText.vo Spec/C14.vo
+Proofs/C14Proofs.vio: Proofs/C14Proofs.v Model/LspText.vio Spec/C14.vio
+Proofs/C14Proofs.vos Proofs/C14Proofs.vok Proofs/C14Proofs.required_vos: Proofs/C14Proofs.v Model/LspText.vos Spec/C14.vos
 Proofs/CycleProofs.vo Proofs/CycleProofs.glob Proofs/CycleProofs.v.beautified Proofs/CycleProofs.required_vo: Proofs/CycleProofs.v Model/Io.vo Model/Cycle.vo Proofs/IoProofs.vo
 Proofs/CycleProofs.vio: Proofs/CycleProofs.v Model/Io.vio Model/Cycle.vio Proofs/IoProofs.vio
 Proofs/CycleProofs.vos Proofs/CycleProofs.vok Proofs/CycleProofs.required_vos: Proofs/CycleProofs.v Model/Io.vos Model/Cycle.vos Proofs/IoProofs.vos
@@ -43,6 +52,9 @@ Properties/C07.vos Properties/C07.vok Properties/C07.required_vos: Properties/C0
 Properties/C08.vo Properties/C08.glob Properties/C08.v.beautified Properties/C08.required_vo: Properties/C08.v Model/Io.vo Model/Cycle.vo Proofs/IoProofs.vo Proofs/CycleProofs.vo
 Properties/C08.vio: Properties/C08.v Model/Io.vio Model/Cycle.vio Proofs/IoProofs.vio Proofs/CycleProofs.vio
 Properties/C08.vos Properties/C08.vok Properties/C08.required_vos: Properties/C08.v Model/Io.vos Model/Cycle.vos Proofs/IoProofs.vos Proofs/CycleProofs.vos
+Properties/C14.vo Properties/C14.glob Properties/C14.v.beautified Properties/C14.required_vo: Properties/C14.v Model/LspText.vo Spec/C14.vo Proofs/C14Proofs.vo
+Properties/C14.vio: Properties/C14.v Model/LspText.vio Spec/C14.vio Proofs/C14Proofs.vio
+Properties/C14.vos Properties/C14.vok Properties/C14.required_vos: Properties/C14.v Model/LspText.vos Spec/C14.vos Proofs/C14Proofs.vos
 Spec/C04.vo Spec/C04.glob Spec/C04.v.beautified Spec/C04.required_vo: Spec/C04.v 
 Spec/C04.vio: Spec/C04.v 
 Spec/C04.vos Spec/C04.vok Spec/C04.required_vos: Spec/C04.v 
@@ -58,3 +70,6 @@ Spec/C06Judge.vos Spec/C06Judge.vok Spec/C06Judge.required_vos: Spec/C06Judge.v
 Spec/C07Judge.vo Spec/C07Judge.glob Spec/C07Judge.v.beautified Spec/C07Judge.required_vo: Spec/C07Judge.v Model/Io.vo Model/Cycle.vo
 Spec/C07Judge.vio: Spec/C07Judge.v Model/Io.vio Model/Cycle.vio
 Spec/C07Judge.vos Spec/C07Judge.vok Spec/C07Judge.required_vos: Spec/C07Judge.v Model/Io.vos Model/Cycle.vos
+Spec/C14.vo Spec/C14.glob Spec/C14.v.beautified Spec/C14.required_vo: Spec/C14.v Model/LspText.vo
+Spec/C14.vio: Spec/C14.v Model/LspText.vio
+Spec/C14.vos Spec/C14.vok Spec/C14.required_vos: Spec/C14.v Model/LspText.vos
